@@ -2787,6 +2787,7 @@ HMCPread(accrec_t *access_rec, /* IN: access record to mess with */
     int32        read_seek     = 0;    /* next read seek position */
     int32        chunk_size    = 0;    /* size of data to read from chunk */
     int32        chunk_num     = 0;    /* next chunk number */
+    int32        elem_off      = 0;    /* byte offset of the position inside its element */
     void        *chk_data      = NULL; /* chunk data */
     uint8       *chk_dptr      = NULL; /* pointer to chunk data */
     int32        ret_value     = SUCCEED;
@@ -2821,10 +2822,14 @@ HMCPread(accrec_t *access_rec, /* IN: access record to mess with */
         /* calculate chunk to retrieve on this pass */
         calculate_chunk_num(&chunk_num, info->ndims, info->seek_chunk_indices, info->ddims);
 
+        /* a transfer may start inside an element (only the first pass can) */
+        elem_off = relative_posn % info->nt_size;
+
         /* calculate contiguous chunk size that we can read from this chunk
-           during this pass */
-        calculate_chunk_for_chunk(&chunk_size, info->ndims, info->nt_size, read_len, bytes_read,
+           during this pass, counted from where we are inside the element */
+        calculate_chunk_for_chunk(&chunk_size, info->ndims, info->nt_size, read_len + elem_off, bytes_read,
                                   info->seek_chunk_indices, info->seek_pos_chunk, info->ddims);
+        chunk_size -= elem_off;
 
         /* would be nice to get Chunk record from TBBT based on chunk number
            and then get chunk data base on chunk vdata number but
@@ -2845,7 +2850,7 @@ HMCPread(accrec_t *access_rec, /* IN: access record to mess with */
         /* calculate position in chunk */
         calculate_seek_in_chunk(&read_seek, info->ndims, info->nt_size, info->seek_pos_chunk, info->ddims);
 
-        chk_dptr += read_seek; /* move to correct position in chunk */
+        chk_dptr += read_seek + elem_off; /* move to correct position in chunk */
 
         /* copy data from chunk to users buffer */
         memcpy(bptr, chk_dptr, (size_t)chunk_size);
@@ -3220,6 +3225,7 @@ HMCPwrite(accrec_t   *access_rec, /* IN: access record to mess with */
     int32        write_seek    = 0; /* next write seek */
     int32        chunk_size    = 0; /* chunk size */
     int32        chunk_num     = 0; /* chunk number */
+    int32        elem_off      = 0; /* byte offset of the position inside its element */
     int32        ret_value     = SUCCEED;
     int          k; /* loop index */
 
@@ -3256,9 +3262,14 @@ HMCPwrite(accrec_t   *access_rec, /* IN: access record to mess with */
         /* calculate chunk to retrieve */
         calculate_chunk_num(&chunk_num, info->ndims, info->seek_chunk_indices, info->ddims);
 
-        /* calculate contiguous chunk size that we can write to this chunk */
-        calculate_chunk_for_chunk(&chunk_size, info->ndims, info->nt_size, write_len, bytes_written,
+        /* a transfer may start inside an element (only the first pass can) */
+        elem_off = relative_posn % info->nt_size;
+
+        /* calculate contiguous chunk size that we can write to this chunk,
+           counted from where we are inside the element */
+        calculate_chunk_for_chunk(&chunk_size, info->ndims, info->nt_size, write_len + elem_off, bytes_written,
                                   info->seek_chunk_indices, info->seek_pos_chunk, info->ddims);
+        chunk_size -= elem_off;
 
         /* find chunk record in TBBT */
         if (tbbtdfind(info->chk_tree, &chunk_num, NULL) == NULL) { /* not in tree */
@@ -3316,7 +3327,7 @@ HMCPwrite(accrec_t   *access_rec, /* IN: access record to mess with */
         /* calculate position in chunk */
         calculate_seek_in_chunk(&write_seek, info->ndims, info->nt_size, info->seek_pos_chunk, info->ddims);
 
-        chk_dptr += write_seek; /* move to correct position in chunk */
+        chk_dptr += write_seek + elem_off; /* move to correct position in chunk */
 
         /* copy data from users buffer to chunk */
         memcpy(chk_dptr, bptr, (size_t)chunk_size);
